@@ -254,6 +254,8 @@ func regC05(add addFn, p pFn) {
 			add(&Instance{Property: "C05", Name: "encrypt-e" + itoa(et) + "-n" + itoa(n), Entry: "crypto.VH_C05_Encrypt", Params: p("etype", et, "n", n), Stubs: []string{"nfolduf", "des3rtkuf"}, Logic: "QF_UFBV", Tier: "thorough",
 				Reach: []string{"encrypted", "decrypted"}, Bound: "plaintext of exactly n bytes; everything else symbolic"})
 		}
+		add(&Instance{Property: "C05", Name: "encrypt-twice-e" + itoa(et), Entry: "crypto.VH_C05_EncryptTwice", Params: p("etype", et, "n", 17), Stubs: []string{"nfolduf", "des3rtkuf"}, Logic: "QF_UFBV", Reach: []string{"done"},
+			Bound: "history of two encryptions with one key and usage, two arbitrary 17-byte plaintexts; the confounder of each is one of the first four confounder-sized windows of the random bytes drawn so far, and not the same window twice"})
 		add(&Instance{Property: "C05", Name: "api-e" + itoa(et), Entry: "crypto.VH_C05_PublicAPI", Params: p("etype", et, "n", 17), Stubs: []string{"nfolduf", "des3rtkuf"}, Logic: "QF_UFBV", Reach: []string{"done"},
 			Bound: "GetEncryptedData/DecryptMessage wrappers, 17-byte plaintext"})
 	}
